@@ -126,9 +126,11 @@ def dump_real(fl):
     S = np.asarray(fl.S) if fl.noise_flag else None     # rank-tolerant: the dump must not fail where the logger did not
     if S is not None:
         S = S.reshape(S.shape[0], -1) if S.size else S.reshape(0, 1)
+    # rank-/size-tolerant: after a failed store Xn may point beyond the tables; the dump must not fail where the logger did not
+    n = max(0, min([n, len(fl.X_orig), len(fl.X), len(fl.Y_orig), len(fl.Y), len(fl.n_evals)] + ([len(S)] if S is not None else [])))
     for i in range(n):
         s2 = None
-        if fl.noise_flag and not math.isnan(S[i, 0]):
+        if fl.noise_flag and math.isfinite(S[i, 0]):
             s2 = Fraction(float(S[i, 0])) ** 2
         rows.append([fl.X_orig[i].tolist(), fl.X[i].tolist(), float(fl.Y_orig[i, 0]), float(fl.Y[i, 0]), s2,
                      int(fl.n_evals[i, 0])])
@@ -237,13 +239,13 @@ def xexpect(trace, he):
         elif res is None:
             r = xv(None)
         else:
-            fv = f"(XA {cq(res[0])})" if he else xv(res[0])
+            fv = f"(XA {cq(res[0])})" if (he and math.isfinite(res[0])) else xv(res[0])
             r = "(XL " + clist([fv, xv(res[1]), xv(res[2])]) + ")"
         items.append("(XL " + clist([r, xv([st["Xn"], st["cap"], st["fc"], st["cc"]])]) + ")")
     rows = []
     st = trace[-1][1]
     for (xo, x, yo, y, s2, n) in st["rows"]:
-        ycell = f"(XA {cq(y)})" if (he and n > 1) else xv(y)
+        ycell = f"(XA {cq(y)})" if (he and n > 1 and math.isfinite(y)) else xv(y)
         scell = xv(None) if s2 is None else f"(XA {cq(s2)})"
         rows.append("(XL " + clist([xv(xo), xv(x), xv(yo), ycell, scell, xv(n)]) + ")")
     return "(XL " + clist(["(XL " + clist(items) + ")", "(XL " + clist(rows) + ")"]) + ")"
@@ -273,6 +275,15 @@ def monitor(cfg, ops, trace):
     recs = []           # [x, obs list[(y, sd)], hits]
     fc = 0
     for k, (o, (res, st)) in enumerate(zip(ops, trace)):
+        if o["op"] == "call" and o.get("out") == "bad" and res != "ValueError":
+            return (f"op {k}: the target returned an invalid value ({o['bad']}) at {o['x']} and the call " +
+                    ("was accepted" if not isinstance(res, str) else f"raised {res}") + " (an invalid value must raise ValueError at that call)")
+        if o["op"] == "call" and o.get("out") == "raise" and res != "Boom":
+            return f"op {k}: the target raised Boom at {o['x']} but the call " + ("returned normally" if not isinstance(res, str) else f"raised {res}")
+        if o["op"] == "call" and o.get("out") == "ok" and isinstance(res, str):
+            return f"op {k}: a valid evaluation at {o['x']} (value {o['y']}, SD {o['sd'] if he else None}) raised {res}: the evaluation is not recorded"
+        if o["op"] == "add" and cfg["level"] > 0 and o["sd"] is not None and not (o["sd"] > 0) and res != "ValueError":
+            return f"op {k}: add() with invalid SD {o['sd']} did not raise ValueError"
         if o["op"] == "finalize":
             pass
         elif isinstance(res, str):
@@ -311,6 +322,8 @@ def monitor(cfg, ops, trace):
                 return f"op {k}: row {i} internal point {x} != {r[0]} (call order broken)"
             if r[3] is not None and not _close(xo, r[3]):
                 return f"op {k}: row {i} is logged at original-space location {xo}, the observation was made at {r[3]} (internal point {x})"
+            if isinstance(y, float) and not math.isfinite(y):
+                return f"op {k}: row {i} (point {x}) holds the non-finite value {y}"
             if n != len(r[1]) + r[2]:
                 return f"op {k}: row {i} n_evals {n} != {len(r[1]) + r[2]}"
             if yo != r[1][0][0]:
@@ -339,3 +352,260 @@ def shrink(cfg, ops, failing):
         else:
             i += 1
     return ops
+
+
+# ----------------------------------------------------------------------------- the program regenerated from the source (translate/logger.py)
+
+REQUIRES_SRC = ["PV.Model.XQ", "PV.Model.Val", "PV.Model.Logger", "PV.Model.LoggerSrc", "PV.gen.Src_logger"]
+CASE_TY_SRC = "((Z * bool * bool * list op) * xval) * list Z"
+COQ_DEFS_SRC = ("Fixpoint zl_eqb (a b : list Z) : bool := match a, b with [] , [] => true | x :: r, y :: s => (x =? y) && zl_eqb r s | _, _ => false end.\n"
+                "Definition oc_tag (o : outcome) : string := match o with OkVal _ _ => \"ok\"%string | BadVal _ => \"ValueError\"%string | Raise c => c end.\n")
+OK_FUN_M = "fun c => let '(cs, nz, he, ops) := fst (fst c) in xval_ok (run_logger cs nz he ops) (snd (fst c))"
+OK_FUN_SRC = ("fun c => let '(cs, nz, he, ops) := fst (fst c) in let r := run_logger_gen src_record src_call_events src_add_events cs nz he ops in "
+              "xval_ok (fst r) (snd (fst c)) && zl_eqb (snd r) (snd c)")
+
+
+def coq_case_src(cfg, ops, trace, oracle):
+    """the model's case literal + the X_max_idx observed after every op"""
+    return f"({coq_case(cfg, ops, trace, oracle)}, {clist([cz(st['X_max_idx']) for _, st in trace])})"
+
+
+def run_cases_both(name, cases, shard=150, timeout=900):
+    """every shard is evaluated twice on the SAME literals: hand-written model (run_logger) and the interpreter on the GENERATED
+    programs (run_logger_gen src_record src_call_events src_add_events).  Returns (compiled, bad_model, bad_src, log)."""
+    from concurrent.futures import ThreadPoolExecutor
+    from vlib import core
+    tg = [r[3:].replace(".", "/") + ".vo" for r in REQUIRES_SRC if r.startswith("PV.")]
+    okb, logb = core.coq_make(tg)
+    if not okb:
+        return False, [], [], "required modules do not build:\n" + logb[-2000:]
+    shards = [cases[i:i + shard] for i in range(0, len(cases), shard)] or [[]]
+
+    def one(k):
+        body = COQ_DEFS_SRC + f"\nDefinition the_cases : list ({CASE_TY_SRC}) := " + clist(["\n  " + c for c in shards[k]]) + ".\n"
+        body += f"Eval vm_compute in (bad_indices ({OK_FUN_M}) the_cases).\n"
+        body += f"Eval vm_compute in (bad_indices ({OK_FUN_SRC}) the_cases).\n"
+        ok, out = core.coq_eval(f"{name}_{k}", REQUIRES_SRC, body, timeout=timeout)
+        ev = core.split_evals(out) if ok else []
+        lists = [core.parse_nat_list(e) for e in ev]
+        if not ok or len(lists) != 2 or any(x is None for x in lists):
+            return False, None, None, out
+        return True, lists[0], lists[1], out
+    with ThreadPoolExecutor(max_workers=min(12, len(shards))) as ex:
+        res = list(ex.map(one, range(len(shards))))
+    allok, bm, bs, log = True, [], [], ""
+    for k, (ok, a, b, out) in enumerate(res):
+        if not ok:
+            allok = False
+            log += f"[shard {k}] coqc failed:\n{out[-3000:]}\n"
+        else:
+            bm += [k * shard + i for i in a]
+            bs += [k * shard + i for i in b]
+    return allok, bm, bs, log
+
+
+# ---- the validity tests: what the target returned (any Python value) -> pyval literal; real outcome class
+
+VALUE_KINDS = ["nan", "inf", "-inf", "complex", "complex0", "npcomplex", "npcomplex0", "vector", "none", "pair_in_nonhe", "scalar_in_he",
+               "sd_zero", "sd_neg", "sd_nan", "sd_inf", "sd_complex0", "sd_none", "sd_vector", "sd_tiny", "val_zero", "val_neg", "ok"]
+
+
+def value_of_kind(kind, he):
+    y, sd = 1.5, 0.5
+    if kind == "ok":
+        return (y, sd) if he else y
+    if kind == "val_zero":
+        return (0.0, sd) if he else 0.0
+    if kind == "val_neg":
+        return (-2.0, sd) if he else -2.0
+    if kind == "sd_none":
+        return (y, None) if he else None
+    if kind == "sd_vector":
+        return (y, np.array([0.5, 0.5])) if he else None
+    if kind == "sd_tiny":
+        return (y, 2.0 ** -40) if he else None
+    if kind == "none":
+        return None
+    v = bad_value(kind, y, sd, he)
+    return v
+
+
+def cxq_(x):
+    x = float(x)
+    if math.isnan(x):
+        return "XNaN"
+    if math.isinf(x):
+        return "XPInf" if x > 0 else "XNInf"
+    return f"(XFin {cq(x)})"
+
+
+def pyval_lit(v):
+    if v is None:
+        return "PNone"
+    if isinstance(v, tuple) and len(v) == 2:
+        return f"(PPair {pyval_lit(v[0])} {pyval_lit(v[1])})"
+    if isinstance(v, (complex, np.complexfloating)):
+        return "PComplex"
+    if isinstance(v, (np.ndarray, list)) and np.size(v) != 1:
+        return "PArray"
+    if isinstance(v, (float, int, np.floating, np.integer)) and not isinstance(v, bool):
+        return f"(PFloat {cxq_(v)})"
+    raise ValueError(f"no pyval for {v!r}")
+
+
+def tie_checks(ctx, broken, label="C12"):
+    """correspondence:logger_checks_source - every value kind in every noise mode, first call and later call: the real FunctionLogger's
+    outcome class against (i) the generated ordered tests run by Model/LoggerSrc.v checks_outcome and (ii) the hand-written classify_call."""
+    from pybads.function_logger import FunctionLogger
+    from vlib import core
+    cases, meta = [], []
+    for level in (0, 1, 2):
+        he = level == 2
+        for kind in VALUE_KINDS:
+            v = value_of_kind(kind, he)
+            if v is None and kind != "none":
+                continue
+            for warm in (0, 2):
+                box = {"v": (1.0, 1.0) if he else 1.0}
+                fl = FunctionLogger(lambda x: box["v"], 2, level > 0, level, cache_size=4)
+                for k in range(warm):
+                    fl(np.array([0.25 * k, 0.5]))
+                box["v"] = v
+                fc0, xn0 = fl.func_count, fl.Xn
+                try:
+                    fl(np.array([1.0, -1.0]))
+                    cls = "ok"
+                except Exception as ex:
+                    cls = type(ex).__name__
+                try:
+                    lit = pyval_lit(v)
+                except ValueError:
+                    continue
+                cases.append(f"(({cbool(level > 0)}, {cbool(he)}, {lit}), {cstr(cls)})")
+                meta.append(dict(level=level, kind=kind, warm=warm, real=cls, func_count_delta=fl.func_count - fc0, rows_delta=fl.Xn - xn0))
+                m = meta[-1]
+                expect_ok = kind in ("ok", "val_zero", "val_neg", "sd_tiny")
+                if expect_ok != (cls == "ok") or (cls != "ok" and cls != "ValueError") or m["func_count_delta"] != (1 if cls == "ok" else 0) \
+                        or m["rows_delta"] != (1 if cls == "ok" else 0):
+                    what = (f"level {level}, target returns {v!r} ({kind}) at call {warm + 1}: " +
+                            ("accepted and logged" if cls == "ok" else f"raises {cls}") +
+                            f"; func_count +{m['func_count_delta']}, rows +{m['rows_delta']}" +
+                            ("" if expect_ok else "  (an invalid value must raise ValueError at that call and leave the log alone)"))
+                    ctx.violate("invalid-accepted" if cls == "ok" else ("valid-rejected" if expect_ok else "wrong-exception-class"), what,
+                                dict(kind="logger_value", level=level, value_kind=kind, warm=warm))
+    ty = "(bool * bool * pyval) * string"
+    f_src = "fun c => let '(nz, he, v) := fst c in String.eqb (oc_tag (checks_outcome (checks_of src_call_events) nz he v)) (snd c)"
+    f_mod = "fun c => let '(nz, he, v) := fst c in String.eqb (oc_tag (classify_call he v)) (snd c)"
+    ok1, bad1, log1 = core.run_cases(label + "chk_src", REQUIRES_SRC, ty, f_src, cases, shard=400, defs=COQ_DEFS_SRC)
+    ok2, bad2, log2 = core.run_cases(label + "chk_mod", ["PV.Model.XQ", "PV.Model.Val", "PV.Model.Logger", "PV.Model.LoggerSrc"], ty, f_mod, cases, shard=400, defs=COQ_DEFS_SRC)
+    ctx.count(len(cases), len(cases))
+    ctx.coverage["value_checks"] = dict(cases=len(cases), differing_generated=len(bad1), differing_model=len(bad2))
+    g1 = ctx.oblige("correspondence:logger_checks_source", "correspondence", ok1 and not bad1,
+                    f"ordered validity tests regenerated from __call__ vs real FunctionLogger: {len(bad1)} of {len(cases)} (mode, value) pairs differ; " + log1[-300:])
+    g2 = ctx.oblige("correspondence:logger_checks", "correspondence", ok2 and not bad2,
+                    f"classify_call vs real FunctionLogger: {len(bad2)} of {len(cases)} differ; " + log2[-300:])
+    if not g1:
+        broken.append(("correspondence:logger_checks_source", "generated validity tests and FunctionLogger differ: " + (str(meta[bad1[0]]) if bad1 else log1[-300:])))
+    if not g2:
+        broken.append(("correspondence:logger_checks", "classify_call and FunctionLogger differ: " + (str(meta[bad2[0]]) if bad2 else log2[-300:])))
+    return meta
+
+
+# ---- sequences AIMED at a construct of the source (translate.logger.regions_of_diff says which)
+
+def _call(x, y, sd, record=True):
+    return dict(op="call", x=list(x), out="ok", y=float(y), sd=float(sd), record=record)
+
+
+def _add(x, y, sd):
+    return dict(op="add", x=list(x), y=float(y), sd=sd)
+
+
+def _bad(x, kind, record=True):
+    return dict(op="call", x=list(x), out="bad", bad=kind, y=1.5, sd=0.5, record=record)
+
+
+def gen_aimed(rng, regions, n):
+    """[(note, cfg, ops)]: short sequences built around the construct that changed"""
+    out = []
+    grid = [-1.0, -0.5, 0.0, 0.25, 0.5, 1.0]
+
+    def pt(D):
+        return [rng.choice(grid) for _ in range(D)]
+
+    def cfgof(level, cache, D, transform=False, arr="fresh"):
+        return dict(D=D, level=level, cache=cache, transform=transform, arr=arr)
+
+    regs = sorted(regions) or ["dupsearch"]
+    for k in range(n):
+        reg = regs[k % len(regs)]
+        D = rng.choice([1, 2, 2, 3])
+        ops = []
+        if reg == "dupsearch":
+            level = rng.choice([2, 2, 2, 0])
+            pts = [pt(D) for _ in range(rng.choice([1, 2, 3, 5]))]
+            for p in pts:
+                ops.append(_call(p, rng.randint(-8, 8) / 4.0, rng.choice([0.5, 1.0, 2.0])))
+            for _ in range(rng.choice([1, 2, 4])):
+                how = rng.choice(["first", "last", "any", "near", "near", "share", "zero"])
+                base = pts[0] if how == "first" else pts[-1] if how == "last" else rng.choice(pts)
+                x = list(base)
+                if how == "near":
+                    j = rng.randrange(D)
+                    x[j] = x[j] + rng.choice([2.0 ** -52, -2.0 ** -52, 1e-9, 1e-7, 2.0 ** -30]) * max(1.0, abs(x[j]))
+                elif how == "share" and D > 1:
+                    j = rng.randrange(D)
+                    x[j] = rng.choice([g for g in grid if g != x[j]])
+                elif how == "zero":
+                    x = [0.0] * D           # a point equal to what a zero-filled unused row would hold
+                ops.append(_call(x, rng.randint(-8, 8) / 4.0, rng.choice([0.5, 1.0, 2.0]), record=rng.random() < 0.75))
+            cfg = cfgof(level, rng.choice([1, 2, 8, 500]), D)
+        elif reg == "merge":
+            p = pt(D)
+            q = pt(D)
+            ops = [_call(p, rng.randint(-8, 8) / 4.0, rng.choice([0.5, 1.0, 2.0 ** -30, 2.0 ** 20, 1e-8, 1e6, 3.0]))]
+            if rng.random() < 0.5:
+                ops.append(_call(q, 1.0, 1.0))
+            for _ in range(rng.choice([1, 2, 3, 6, 10])):
+                ops.append(_call(p, rng.randint(-8, 8) / 4.0, rng.choice([0.25, 0.5, 1.0, 2.0, 2.0 ** -30, 2.0 ** -28, 2.0 ** 20, 1e-8, 1e6, 3.0])))
+            cfg = cfgof(2, rng.choice([1, 2, 500]), D)
+        elif reg == "notrecorded":
+            level = rng.choice([0, 1, 2])
+            pts = [pt(D) for _ in range(rng.choice([0, 1, 2, 4]))]
+            if level != 2 and pts and rng.random() < 0.5:
+                pts.append(list(pts[0]))       # the same point twice in the log (possible without specified noise)
+            for p in pts:
+                ops.append(_call(p, rng.randint(-8, 8) / 4.0, 1.0))
+            for _ in range(rng.choice([1, 2, 3])):
+                x = rng.choice(pts) if pts and rng.random() < 0.6 else [rng.choice([3.0, 7.0, -9.0]) for _ in range(D)]
+                ops.append(_call(x, rng.randint(-8, 8) / 4.0, 1.0, record=False))
+            if rng.random() < 0.5:
+                ops.append(_call(pt(D), 2.0, 1.0))
+            cfg = cfgof(level, rng.choice([0, 1, 2, 500]), D)
+        elif reg in ("growth", "newrow"):
+            level = rng.choice([0, 2])
+            m = rng.choice([1, 2, 3, 4, 5, 8, 12])
+            for i in range(m):
+                ops.append(_call([float(i)] + pt(D)[1:], float(i), 1.0))
+                if level == 2 and rng.random() < 0.3:
+                    ops.append(_call(ops[rng.randrange(len(ops))]["x"], 0.5, 0.5))      # a merged repeat before the next growth
+                if rng.random() < 0.1:
+                    ops.append(dict(op="finalize"))
+            cfg = cfgof(level, rng.choice([0, 1, 2, 3]), D, transform=rng.random() < 0.3)
+        elif reg == "add":
+            level = rng.choice([0, 2])
+            p = pt(D)
+            ops = [_add(p, 1.0, rng.choice([None, 0.5, 2.0])), _add(pt(D), 2.0, rng.choice([None, 0.5])), _add(p, 3.0, rng.choice([None, 0.5, 0.0, -1.0])),
+                   _call(p, 0.5, 1.0)]
+            cfg = cfgof(level, rng.choice([1, 2, 500]), D, transform=rng.random() < 0.3)
+        else:       # checks / call
+            level = rng.choice([0, 1, 2])
+            kinds = ["nan", "inf", "-inf", "complex", "complex0", "npcomplex", "npcomplex0", "vector", "none", "pair_in_nonhe", "scalar_in_he",
+                     "sd_zero", "sd_neg", "sd_nan", "sd_inf", "sd_complex0"]
+            pre = [_call(pt(D), 1.0, 1.0) for _ in range(rng.choice([0, 1, 3]))]
+            ops = pre + [_bad(pt(D), kinds[(k // len(regs)) % len(kinds)], record=rng.random() < 0.8), _call(pt(D), 2.0, 1.0)]
+            if rng.random() < 0.3:
+                ops.insert(len(pre), dict(op="call", x=pt(D), out="raise", record=True))
+            cfg = cfgof(level, rng.choice([1, 500]), D)
+        out.append((reg, cfg, ops))
+    return out
